@@ -23,8 +23,17 @@ _standalone = []
 
 def standalone():
     if not _standalone:
-        _standalone.append(repo.load_by_path("mga2gda_standalone", "Standalone/mga2gda.py"))
+        with own_process_context():
+            _standalone.append(repo.load_by_path("mga2gda_standalone", "Standalone/mga2gda.py"))
     return _standalone[0]
+
+
+def own_process_context():
+    """The stand-alone converter is a program: it runs in a process of its own, whose decimal context is Python's default.  It is
+    imported and called under that context whatever the application-state environment of the runner has set process-wide (the
+    module computes its ellipsoid constants with Decimal at import; an application's context is not its environment)."""
+    import decimal
+    return decimal.localcontext(decimal.Context(prec=28, rounding=decimal.ROUND_HALF_EVEN))
 
 
 def selftest():
@@ -155,6 +164,11 @@ def check_mirror(case):
 
 
 def check_standalone(case):
+    with own_process_context():
+        return _check_standalone(case)
+
+
+def _check_standalone(case):
     cv = repo.mod("geodepy.convert")
     sa = standalone()
     T.grid_predomain_or_discard(dict(case, prj="utm", ell="grs80"), hemi="south")
@@ -180,6 +194,11 @@ def _hp_numeric(v):
 
 
 def check_standalone_batch(case):
+    with own_process_context():
+        return _check_standalone_batch(case)
+
+
+def _check_standalone_batch(case):
     """The batch path itself: a CSV of (point, zone, easting, northing) rows through grid2geoio, output parsed back."""
     import csv
     import os
